@@ -18,7 +18,7 @@ STREAMS = {
     'C07': ['parsestream'], 'C08': ['parsestream'], 'C14': ['parsestream'], 'C19': ['parsestream'], 'C09': ['parsestream', 'schcstream'],
     'C12': ['jsonstream'],
     'C01': ['schcstream'], 'C02': ['schcstream'], 'C03': ['schcstream'], 'C04': ['schcstream', 'histstream'], 'C10': ['schcstream', 'histstream'],
-    'C11': ['schcstream'], 'C15': ['schcstream', 'histstream'], 'C17': ['schcstream'], 'C18': ['schcstream', 'histstream'], 'C20': ['schcstream'],
+    'C11': ['schcstream', 'histstream'], 'C15': ['schcstream', 'histstream'], 'C17': ['schcstream'], 'C18': ['schcstream', 'histstream'], 'C20': ['schcstream'],
 }
 
 def load_json(path, default):
